@@ -166,6 +166,37 @@ def typed_program(rng):
     return out
 
 
+def self_referential_bodies(rng, n):
+    inits = {"list": ["[]", "[1]", "[\"a\", 2]"], "dict": ["{}", "{\"k\": 1}"], "tuple": ["()", "(1,)"], "set": ["set()"]}
+    wraps = ["X", "(X,)", "[X]", "(X, X)", "{\"k\": X}", "[X, (X,)]", "(X, [X], 1)", "{1: (X,)}", "[[X]]", "(X, \"s\", X)", "struct(a=X)", "[x for x in [X]]", "(X if True else 1)"]
+    out = []
+    for _ in range(n):
+        kind = rng.choice(list(inits))
+        L = ["def f(n):", "    x = %s" % rng.choice(inits[kind])]
+        loop = rng.random() < 0.5
+        ind = "    "
+        if loop:
+            L.append("    for i in range(n):")
+            ind = "        "
+        for _ in range(rng.randint(1, 3)):
+            w = rng.choice(wraps)
+            if kind == "list":
+                L.append(ind + rng.choice(["x.append(%s)", "x.extend([%s])", "x = x + [%s]", "x += [%s]", "x.insert(0, %s)", "x = [%s]"]) % w.replace("X", "x"))
+            elif kind == "dict":
+                L.append(ind + rng.choice(["x[\"s\"] = %s", "x.update({\"u\": %s})", "x = {\"w\": %s}", "x.setdefault(\"d\", %s)", "x |= {\"o\": %s}"]) % w.replace("X", "x"))
+            elif kind == "tuple":
+                L.append(ind + rng.choice(["x = (%s, x)", "x = x + (%s,)", "x = (%s,)"]) % w.replace("X", "x"))
+            else:
+                L.append(ind + "x = set([len(x)]) | x")
+                L.append(ind + "y = [%s]" % w.replace("X", "x"))
+                L.append(ind + "y.append((y, x))")
+        L.append("    return x")
+        L.append("r = f(2)")
+        L.append("emit(\"P\", \"n\", len(repr(r)))")
+        out.append("\n".join(L) + "\n")
+    return out
+
+
 def annotate(rng, lines):
     """Add parameter / return annotations the generator knows to be right (types tracked by the generator)."""
     return lines
@@ -196,14 +227,28 @@ def run(tier):
         cid = "m%d" % i
         kinds[cid] = kind
         cases.append({"id": cid, "src": src, "dialect": "internal", "eval": True})
+    # bindings defined in terms of themselves: the inferred type grows with every round of the checker's fixed point
+    for j, body in enumerate(self_referential_bodies(random.Random("%d/c17self" % s), 40 if tier == "quick" else 400)):
+        cid = "s%d" % j
+        kinds[cid] = "self-referential"
+        cases.append({"id": cid, "src": body, "dialect": "internal", "eval": True})
     flavors = ["dbg"] if tier == "quick" else ["dbg", "rel"]
     st = {"modules": 0, "silent": 0, "tc_errors_on_illtyped": 0, "bindings_checked": 0, "bindings_uncommitted": 0, "iface_checked": 0, "values": 0, "approx_modules": 0}
     distinct = set()
     samples = []
     for flavor in flavors:
         svh = os.path.join(common.build(flavor), "svh")
-        batch = common.run_cases(svh, "typecheck", cases, "c17_" + flavor, shards=NCPU, timeout=3000, per_case_timeout=120)
+        # termination, restated as bounded progress: a module of a few KB is checked within CPU_LIMIT seconds of CPU time.
+        # In the batch a wall-clock watchdog (generous) only singles the module out; alone it runs under RLIMIT_CPU.
+        CPU_LIMIT = 240
+        batch = common.run_cases(svh, "typecheck", cases, "c17_" + flavor, shards=NCPU, timeout=3000, per_case_timeout=3600, opts={"case_timeout_s": "180"},
+                                 cpu_limit_alone=CPU_LIMIT)
         for cr in batch.crashes:
+            rc2 = (cr.get("confirm") or {}).get("rc")
+            if rc2 in (-24, -9):
+                rep.violation("c17:does-not-terminate", "[%s] checking module %s (%d bytes) alone did not finish within %d s of CPU time" % (
+                    flavor, cr["id"], len(cr["case"].get("src", "")), CPU_LIMIT), {"flavor": flavor, "case": cr["case"], "crash": cr.get("confirm")})
+                continue
             rep.violation("c17:" + common.crash_signature(cr), "[%s] checker/evaluator process died on module %s" % (flavor, cr["id"]), {"flavor": flavor, "case": cr["case"], "crash": cr.get("confirm")})
         for inc in batch.inconclusive:
             rep.inconc(inc["why"], inc.get("id"))
